@@ -1,6 +1,7 @@
 import Fzf.Lemmas.Pattern
 import Fzf.Spec.Query
 import Fzf.Lemmas.ParseRender
+import Fzf.Lemmas.FilterOnce
 /-
 C01 — filtering is exact: the lines shown are the lines satisfying the query.
 Property theorems only.
@@ -68,6 +69,22 @@ theorem C01_cfgOk_of_tables (U : Unicode) (sch : Scheme) (tbl : List (Nat × Nat
   show normalizeRune tbl c = c
   unfold normalizeRune
   rw [if_pos (Or.inl (by omega))]
+
+/-- **`fzf --filter` prints exactly the matching lines.** For every list of input records, every
+    query and every option set (sorting, --tac, --tail, --nth / --with-nth, --header-lines, criteria):
+    a numbered record is in the output if and only if it is an item (one of the last `--tail`
+    items) on which the pattern matches, printed as the item's original record — no matching
+    line is dropped, no other line is shown. What "the pattern matches" means for an extended
+    query is `C01_extended_iff`; how the query is read is `C01_documented_syntax`. (For the empty
+    pattern every item is printed: `Filter.runIdx`, first branch.) -/
+theorem C01_filter_exact (o : Filter.Opts) (slabCap : Nat) (query : Str) (lines : List Str) (out : List (Nat × Str))
+    (h : Filter.runIdx o slabCap query lines = some out)
+    (hpat : ¬ ((buildPattern o.cfg o.fuzzy o.v2 o.extended o.caseMode o.normalize (Filter.dirAndPos o.criteria).1 false query).isEmpty = true ∧
+              (!(!o.sort && !o.tac)) = true)) :
+    ∀ p : Nat × Str, p ∈ out ↔ ∃ it ∈ Filter.itemsOf o lines, p = (it.index, it.orig) ∧
+      ∃ m, matchItem o.cfg (buildPattern o.cfg o.fuzzy o.v2 o.extended o.caseMode o.normalize (Filter.dirAndPos o.criteria).1 false query)
+        (Filter.inputTokens o it) (if (!o.sort && !o.tac) then false else (Filter.dirAndPos o.criteria).2) slabCap = .ok (some m) :=
+  Filter.runIdx_exact o slabCap query lines out h hpat
 
 /- The documented syntax, on concrete queries (kernel-evaluated; `U` = ASCII-only oracle). -/
 def asciiU : Unicode := ⟨fun c => if 65 ≤ c ∧ c ≤ 90 then c + 32 else c, fun c => c == 32 || (9 ≤ c && c ≤ 13), fun _ => 1⟩
